@@ -20,7 +20,7 @@ def check(ctx, rep, tier):
     rep.describe("value-fields", "equality of resolutions is value equality (imported from C18)")
     rep.describe("training-entry", "the training script feeds the builders' (X, y) unchanged to "
                  "the trainer")
-    cm = ctx.mod("ctparse.corpus")
+    cm = ctx.imod("ctparse.corpus")
     builders = []
     for q, f in cm.funcs.items():
         if "." in q:
@@ -85,74 +85,99 @@ def _builder(ctx, rep, cm, f):
                        (a.targets if isinstance(a, ast.Assign) else [a.target]))]
     rep.add("label", c + "::label not rebound", cm.where(label), not rebinds,
             "" if not rebinds else "the label is modified: " + norm(rebinds[0])[:60])
-    # sample loop
-    inner = [n for n in ast.walk(loop) if isinstance(n, ast.For) and n is not loop and
-             isinstance(n.iter, ast.Call) and norm(n.iter.func) == "range"]
-    if not inner:
-        rep.violated("prefixes", c + "::sample loop", cm.where(loop), "no range-based sample loop")
-        return
-    il = inner[0]
-    iv = norm(il.target)
-    slices = [s for s in ast.walk(il) if isinstance(s, ast.Subscript) and isinstance(s.slice, ast.Slice)
-              and norm(s.value) == pv + ".production"]
-    if not slices:
-        rep.violated("prefixes", c + "::sample loop", cm.where(il), "the sample is not a slice of the production trace")
-        return
-    sl = slices[0].slice
-    from ..e1_model import PureEval
+    # the samples: the body of the candidate loop, constant-propagated (e1.PureEval) for a candidate
+    # whose trace has n = 0..6 marker elements; statements that need the real candidate (the
+    # label, bookkeeping) are skipped, the label is a marker.  Whatever the sampling is written
+    # with (range + slice, a helper generator, accumulation), what is emitted must be each
+    # non-empty prefix exactly once, every one with the candidate's label.
+    from ..e1_model import PureEval, Record, StepBudget, _Raised
+    LABEL = "\ue000label"
+    collectors = sorted({n.func.value.id for n in ast.walk(loop) if isinstance(n, ast.Call)
+                         and isinstance(n.func, ast.Attribute) and n.func.attr in ("append", "extend")
+                         and isinstance(n.func.value, ast.Name)})
+    is_gen = any(isinstance(n, (ast.Yield, ast.YieldFrom)) for n in ast.walk(loop))
     bad = None
-    try:
-        for n in range(0, 7):
-            def ev(e, env):
-                t = _subst_len(e, pv)
-                pe = PureEval.__new__(PureEval)
-                pe.model = None
-                pe.mod = None
-                pe.genv = {}
-                pe.budget = 10000
-                env = dict(env)
-                env["__n__"] = n
-                for b in ("range", "len"):
-                    env[b] = e1.Opaque("builtin", b)
-                return pe.ev(t, env)
-            idxs = ev(il.iter, {})
-            got = []
-            for i in idxs:
-                lo = ev(sl.lower, {iv: i}) if sl.lower is not None else 0
-                hi = ev(sl.upper, {iv: i}) if sl.upper is not None else n
-                if sl.step is not None:
-                    raise Undecided("slice step")
-                trace = list(range(n))
-                got.append(tuple(trace[lo:hi]))
-            want = [tuple(range(k)) for k in range(1, n + 1)]
-            if sorted(got) != sorted(want):
+    und = None
+    emitted_label_ok = True
+    elt_ok = True
+    for n in range(0, 7):
+        trace = ["\ue000t{}".format(k) for k in range(n)]
+        env = {pv: Record(production=list(trace), resolution=Record(), score=0.0), lname: LABEL}
+        for cname in collectors:
+            env[cname] = []
+        if is_gen:
+            env["__yield__"] = []
+        ev = PureEval(ctx.model, cm, dict(ctx.model.env(cm.name)), budget=200000)
+        ev.ext_hook = lambda obj, attr, args, kwargs: None if attr in ("debug", "info", "warning") else NotImplemented
+        skipped = []
+
+        def tolerant(stmts):
+            for st_ in stmts:
+                try:
+                    if isinstance(st_, ast.If):
+                        t_ = ev.ev(st_.test, env)
+                        ev._need_concrete(t_)
+                        tolerant(st_.body if t_ else st_.orelse)
+                    else:
+                        ev.stmt(st_, env)
+                except (Undecided, _Raised) as e:
+                    skipped.append((st_, str(e)))
+        try:
+            tolerant(loop.body)
+        except StepBudget:
+            und = "budget"
+        except Exception as e:       # continue / break at the top level of the body
+            if type(e).__name__ not in ("_Continue", "_Break"):
+                raise
+        if env.get(lname) != LABEL:
+            und = und or "the label variable is rebound by a foldable statement"
+        samples, labels = [], []
+        if is_gen:
+            for item in env["__yield__"]:
+                if isinstance(item, (tuple, list)) and len(item) == 2:
+                    samples.append(item[0])
+                    labels.append(item[1])
+                else:
+                    und = und or "yielded value is not a (sample, label) pair"
+        else:
+            lists = {k: env[k] for k in collectors if isinstance(env.get(k), list)}
+            lab_lists = [v for v in lists.values() if v and all(x == LABEL for x in v)]
+            smp_lists = [v for v in lists.values() if v and all(isinstance(x, list) for x in v)]
+            if n > 0 and (len(lab_lists) != 1 or len(smp_lists) != 1):
+                # nothing emitted, or not recognisable: was a needed statement skipped?
+                inner_skipped = [s_ for s_, _w in skipped if any(isinstance(x, (ast.For, ast.While)) for x in ast.walk(s_))]
+                if inner_skipped:
+                    und = und or "sample loop not foldable: " + skipped[[s_ for s_, _ in skipped].index(inner_skipped[0])][1]
+                else:
+                    bad = bad or "for a trace of length {} no (sample, label) pairs are collected".format(n)
+                continue
+            samples = smp_lists[0] if smp_lists else []
+            labels = lab_lists[0] if lab_lists else []
+        if n > 0 and not samples and is_gen:
+            inner_skipped = [w for s_, w in skipped if any(isinstance(x, (ast.For, ast.While, ast.Yield, ast.YieldFrom)) for x in ast.walk(s_))]
+            if inner_skipped:
+                und = und or "sample loop not foldable: " + inner_skipped[0]
+                continue
+        want = [trace[:k] for k in range(1, n + 1)]
+        got = [list(x) if isinstance(x, (list, tuple)) else x for x in samples]
+        if sorted(map(repr, got)) != sorted(map(repr, want)):
+            lens = [len(g) if isinstance(g, list) else "?" for g in got]
+            if all(isinstance(g, list) for g in got) and sorted(lens) == list(range(1, n + 1)):
+                elt_ok = False
+                bad = bad or "for a trace of length {} the samples have the lengths 1..{} but are not the prefixes " \
+                    "of the trace (elements taken from other positions or transformed)".format(n, n)
+            else:
                 bad = bad or "for a trace of length {} the samples are prefixes of lengths {} (expected 1..{})".format(
-                    n, [len(g) for g in got], n)
-    except Undecided as e:
-        rep.undecided("prefixes", c + "::sample loop", cm.where(il), str(e))
+                    n, lens, n)
+        if len(labels) != len(samples) or any(x != LABEL for x in labels):
+            emitted_label_ok = False
+    if und:
+        rep.undecided("prefixes", c + "::sample loop", cm.where(loop), und)
         return
-    rep.add("prefixes", c + "::sample loop", cm.where(il), bad is None, bad or "n = 0..6")
-    # each sample is emitted with the label
-    emits_ok = False
-    for n_ in ast.walk(il):
-        if isinstance(n_, ast.Yield) and isinstance(n_.value, ast.Tuple) and len(n_.value.elts) == 2 \
-                and norm(n_.value.elts[1]) == lname:
-            emits_ok = True
-        if isinstance(n_, ast.Call) and isinstance(n_.func, ast.Attribute) and n_.func.attr == "append" \
-                and n_.args and norm(n_.args[0]) == lname:
-            emits_ok = True
-    rep.add("prefixes", c + "::label emitted with every sample", cm.where(il), emits_ok,
-            "" if emits_ok else "samples are not emitted with the candidate's label")
-    # the sample elements are the trace elements (stringified), in order
-    elt_ok = False
-    for n_ in ast.walk(il):
-        if isinstance(n_, ast.ListComp) and len(n_.generators) == 1 and not n_.generators[0].ifs:
-            g = n_.generators[0]
-            if g.iter is slices[0] or norm(g.iter) == norm(slices[0]):
-                e = n_.elt
-                tv = norm(g.target)
-                elt_ok = norm(e) in ("str({})".format(tv), tv)
-    rep.add("prefixes", c + "::sample elements", cm.where(il), elt_ok,
+    rep.add("prefixes", c + "::sample loop", cm.where(loop), bad is None, bad or "n = 0..6")
+    rep.add("prefixes", c + "::label emitted with every sample", cm.where(loop), emitted_label_ok,
+            "" if emitted_label_ok else "samples are not emitted with the candidate's label")
+    rep.add("prefixes", c + "::sample elements", cm.where(loop), elt_ok,
             "" if elt_ok else "sample tokens are not the trace elements in order")
 
 
